@@ -737,6 +737,65 @@ pub fn scenarios(t: &Tables, seeds: &[String], seed: u64, n_small: usize, n_mate
             count += 1;
         }
     }
+    // the mate in one is an UNDER-promotion while the queen promotion of the same pawn to the same square is not mate (the four
+    // promotion boards of one pawn share their from / to squares: whatever identifies "the move" by those alone plays the queen)
+    count = 0;
+    tries = 0;
+    while count < (n_mate + 1) / 2 && tries < 3_000_000 {
+        tries += 1;
+        let c = rng.gen_range(0..2u32);
+        let mut used = std::collections::HashSet::new();
+        let mut pcs: Vec<(u32, u32)> = Vec::new();
+        let mut put = |pcs: &mut Vec<(u32, u32)>, s: u32, k: u32| {
+            if used.insert(s) {
+                pcs.push((s, k));
+            }
+        };
+        let pf = rng.gen_range(1..=8u32);
+        let psq = if c == 0 { 48 + pf } else { 8 + pf };
+        put(&mut pcs, psq, 1 + 6 * c);
+        // the enemy king a knight's jump or a line away from the promotion squares, boxed in by a few of its own men
+        let ek = if c == 0 { rng.gen_range(41..=64u32) } else { rng.gen_range(1..=24u32) };
+        put(&mut pcs, ek, 6 + 6 * (1 - c));
+        put(&mut pcs, rng.gen_range(1..=64), 6 + 6 * c);
+        for _ in 0..rng.gen_range(1..=4) {
+            let (ef, er) = (((ek - 1) % 8) as i32 + rng.gen_range(-1..=1), ((ek - 1) / 8) as i32 + rng.gen_range(-1..=1));
+            if (0..8).contains(&ef) && (0..8).contains(&er) {
+                let sq = (8 * er + ef + 1) as u32;
+                let k = [1u32, 1, 2, 3, 4][rng.gen_range(0..5)];
+                if k == 1 && (sq <= 8 || sq >= 57) {
+                    continue;
+                }
+                put(&mut pcs, sq, k + 6 * (1 - c));
+            }
+        }
+        for _ in 0..rng.gen_range(0..=3) {
+            put(&mut pcs, rng.gen_range(1..=64), [2u32, 3, 4, 5][rng.gen_range(0..4)] + 6 * c);
+        }
+        if pcs.iter().filter(|(_, k)| *k == 6).count() != 1 || pcs.iter().filter(|(_, k)| *k == 12).count() != 1 {
+            continue;
+        }
+        let b = crate::misc::board_from(t, &pcs, c, 0, 0);
+        let other = if c == 0 { PieceColor::Black } else { PieceColor::White };
+        if is_check(&b, other) {
+            continue;
+        }
+        let ms = generate_moves(&b, MoveGenerationMode::AllMoves, &t.hasher);
+        let mates = |m: &BoardState| is_check(m, m.to_move) && generate_moves(m, MoveGenerationMode::AllMoves, &t.hasher).is_empty();
+        let under = ms.iter().any(|m| match m.pawn_promotion {
+            Some(p) if p.kind != PieceKind::Queen && mates(m) => {
+                !ms.iter().any(|q| q.last_move == m.last_move && matches!(q.pawn_promotion, Some(pq) if pq.kind == PieceKind::Queen) && mates(q))
+            }
+            _ => false,
+        });
+        if under {
+            out.push(json!({"tag": "mate", "cmd": format!("position fen {}", to_fen(&b, 0, 1))}));
+            count += 1;
+        }
+    }
+    if std::env::var("VERIF_SCEN_STATS").is_ok() {
+        eprintln!("under-promotion mates: {} found in {} tries", count, tries);
+    }
     // two mates of different length: a quiet mate in one AND a capture (searched first by the ordering) that also mates, but
     // later - a root loop that stops at the first mate it meets reports the longer one (seeded C12-9)
     count = 0;
@@ -765,7 +824,7 @@ pub fn scenarios(t: &Tables, seeds: &[String], seed: u64, n_small: usize, n_mate
     // longer mate is found before the quiet mate in one is looked at
     count = 0;
     tries = 0;
-    while count < n_mate / 2 + 1 && tries < 3_000_000 {
+    while count < (n_mate / 2 + 1).min(24) && tries < 3_000_000 {
         tries += 1;
         let strong: &[u32] = [&[6u32, 5, 4, 4][..], &[6, 4, 4, 2, 2], &[6, 5, 4, 2], &[6, 5, 5, 4], &[6, 4, 4, 3, 2]][rng.gen_range(0..5)];
         let weak: &[u32] = [&[6u32, 5, 4, 1, 1][..], &[6, 5, 1, 1], &[6, 4, 4, 1, 1], &[6, 5, 4], &[6, 5, 3, 1]][rng.gen_range(0..5)];
